@@ -190,6 +190,17 @@ impl TimerSlot {
         None
     }
 
+    /// Replaces the waker stored for entry `id`, if the entry is still registered
+    /// and would wake a different task.
+    fn update_waker(&self, id: usize, waker: &Waker) {
+        let mut entries = self.entrys.borrow_mut();
+        if let Some(entry) = entries.iter_mut().find(|entry| entry.id == id) {
+            if !entry.waker.will_wake(waker) {
+                entry.waker = waker.clone();
+            }
+        }
+    }
+
     pub(crate) fn wake_all(self) {
         self.entrys
             .into_inner()
@@ -201,6 +212,14 @@ impl TimerSlot {
 impl TimerSlotEntryHandle {
     pub(super) fn resolve(&mut self) {
         self.resolved = true;
+    }
+
+    /// The timer is polled again while it is registered: the task that polls it now
+    /// is the one that has to be woken at the deadline.
+    pub(super) fn update_waker(&self, waker: &Waker) {
+        if let Some(slot) = self.handle.upgrade() {
+            slot.update_waker(self.id, waker);
+        }
     }
 
     pub(super) fn reset(self, new_deadline: SimTime) -> Option<TimerSlotEntryHandle> {
